@@ -358,6 +358,25 @@ def r05_6_shared(repo: Repo, rep: Report):
 
     rep.rule("R11.3", "solver reply readers: complete `unsat (...)` only (shared with C11)")
     r11_3_dump_writer_reader(repo, rep)
+    # an `unsat` that counts toward PASS must answer the path's own, complete query, with every constraint tracked when
+    # cores are learned from it (shared with C11)
+    from hsa.rules.c11 import r11_1_serialisation
+
+    rep.rule("R11.1", "serialisation is complete, ids are term ids (shared with C11)")
+    r11_1_serialisation(repo, rep)
+    # which counter a finished path lands in (stuck / normal / violation) is the per-path outcome the verdict aggregates
+    from hsa.rules.c03 import r03_1_classification
+
+    r03_1_classification(repo, rep)
+    # a solver call that timed out must surface as `unknown` (-> TIMEOUT), whatever it printed before it was killed
+    from hsa.rules.c17 import r17_1_exactly_once, r17_2_timeout_unknown
+
+    r17_1_exactly_once(repo, rep)
+    r17_2_timeout_unknown(repo, rep)
+    # under --early-exit, what a killed solver had printed so far must not reach the verdict (shared with C04)
+    from hsa.rules.c04 import r04_6_results_during_shutdown
+
+    r04_6_results_during_shutdown(repo, rep)
 
 
 RULES = [r05_1_pass_dominance, r05_2_precedence, r05_3_failure_mapping, r05_4_order_independence, r05_5_exit_code, r05_6_shared]
